@@ -18,6 +18,7 @@ import (
 func init() {
 	register(&Scenario{Prop: "C11", Name: "gate-seq", Run: func(rc *RunCtx) { runGateSeq(rc, "C11") }})
 	register(&Scenario{Prop: "C11", Name: "gate-conc", Run: func(rc *RunCtx) { runGateConc(rc) }})
+	register(&Scenario{Prop: "C11", Name: "gate-stock-payload", Run: runGateStock})
 	register(&Scenario{Prop: "C17", Name: "gate-expiry", Run: func(rc *RunCtx) { runGateSeq(rc, "C17") }})
 	register(&Scenario{Prop: "C17", Name: "gate-expiry-conc", Run: runGateExpiryConc})
 	register(&Scenario{Prop: "C17", Name: "gate-flush-conc", Run: runGateFlushConc})
@@ -930,6 +931,225 @@ func runGateFlushConc(rc *RunCtx) {
 		if count[x] > 1 {
 			rc.Failf("C17.emitted-twice", "", "event #%d of group %s was handed to composition %d times (compositions %v)", x, orig[x], count[x], h.composeLog)
 			break
+		}
+	}
+}
+
+// ---- C11 with the library's own gated.Payload (its ComposeFrom is real code here) ---------
+//
+// Sequential histories of stock payloads (Detail and/or Header) through the filter with a
+// recording Sender; clock advances, FlushAll, Close in between; one flush probe per id at
+// the end. Black-box conservation over the composites (gated.EventPayload) that came out,
+// through the Sender or as the return value of a flush: per id, the details of all
+// composites in emission order are exactly the accepted events that carried a Detail, each
+// once, in arrival order, typed and timestamped like their event (every event carries a Detail,
+// so each is attributable to one composite); the header entries of a composite's events are
+// merged, later events winning; the composite's type is the type of its first event.
+
+type gstockSender struct {
+	got []interface{}
+	typ []el.EventType
+}
+
+func (s *gstockSender) Send(ctx context.Context, t el.EventType, payload interface{}) (el.Status, error) {
+	simrt.Yield("gate:send")
+	s.got = append(s.got, payload)
+	s.typ = append(s.typ, t)
+	return el.Status{}, nil
+}
+
+func runGateStock(rc *RunCtx) {
+	tp := rc.Tape
+	sim := rc.Sim
+	now := time.Date(2026, 5, 1, 0, 0, 0, 0, time.UTC)
+	E := []time.Duration{100, 1000}[tp.Choose(2, "expiration")]
+	snd := &gstockSender{}
+	gf := &gated.Filter{Expiration: E, NowFunc: func() time.Time { return now }, Broker: snd}
+	type acc struct {
+		seq      int
+		id       string
+		typ      string
+		created  time.Time
+		detail   bool
+		header   bool
+		groupNew bool
+	}
+	var accepted []*acc
+	type comp struct {
+		p   gated.EventPayload
+		typ el.EventType
+		via string
+	}
+	var comps []comp
+	ids := []string{"a", "b", "c"}
+	n := 1 + tp.Choose(30, "nops")
+	var hist []string
+	done := false
+	sim.Spawn("gate-stock", func() {
+		defer func() { done = true }()
+		ctx := context.Background()
+		seq := 0
+		take := func() {
+			for i, g := range snd.got {
+				ep, ok := g.(gated.EventPayload)
+				if !ok {
+					rc.Failf("C11.stock-composite", "type", "the Sender received a %T, expected gated.EventPayload", g)
+					continue
+				}
+				comps = append(comps, comp{ep, snd.typ[i], "broker"})
+			}
+			snd.got, snd.typ = nil, nil
+		}
+		for i := 0; i < n+len(ids); i++ {
+			tp.Mark()
+			probe := i >= n
+			c := tp.Choose(12, "op")
+			switch {
+			case probe || c < 7:
+				seq++
+				id := ids[tp.Choose(len(ids), "id")]
+				flush := tp.Choose(5, "flush") == 0
+				if probe {
+					id, flush = ids[i-n], true
+				}
+				a := &acc{seq: seq, id: id, typ: []string{"t1", "t2"}[tp.Choose(2, "type")], created: now.Add(time.Duration(seq)), detail: true, header: tp.Choose(3, "header") == 0}
+				p := &gated.Payload{ID: id, Flush: flush}
+				if a.detail {
+					p.Detail = map[string]interface{}{"seq": seq}
+				}
+				if a.header {
+					p.Header = map[string]interface{}{fmt.Sprintf("h%d", seq): seq, "last": seq}
+				}
+				hist = append(hist, fmt.Sprintf("event(%s,%s,flush=%v,detail=%v,header=%v)#%d", id, a.typ, flush, a.detail, a.header, seq))
+				out, err := gf.Process(ctx, &el.Event{Type: el.EventType(a.typ), CreatedAt: a.created, Payload: p})
+				take()
+				if err != nil {
+					rc.Failf("C11.spurious-error", "stock", "Process returned %v (no fault was injected)\nhistory: %s", err, strings.Join(hist, "; "))
+					return
+				}
+				accepted = append(accepted, a)
+				if flush {
+					if out == nil {
+						rc.Failf("C11.flush-lost", "stock", "flush of %q returned no event\nhistory: %s", id, strings.Join(hist, "; "))
+						return
+					}
+					ep, ok := out.Payload.(gated.EventPayload)
+					if !ok {
+						rc.Failf("C11.stock-composite", "type", "flush returned a %T payload, expected gated.EventPayload", out.Payload)
+						return
+					}
+					if _, isG := out.Payload.(gated.Gateable); isG {
+						rc.Failf("C11.gateable-composite-sent", "stock", "the composite is Gateable")
+					}
+					comps = append(comps, comp{ep, out.Type, "flush"})
+				} else if out != nil {
+					rc.Failf("C11.not-withheld", "stock", "a gated event must be withheld, Process returned %v", out)
+				}
+			case c < 10:
+				d := []time.Duration{1, E / 2, E - 1, E, E + 1, 2 * E}[tp.Choose(6, "adv")]
+				now = now.Add(d)
+				hist = append(hist, fmt.Sprintf("advance(%v)", d))
+			case c < 11:
+				hist = append(hist, "flushall")
+				if err := gf.FlushAll(ctx); err != nil {
+					rc.Failf("C11.spurious-error", "stock-flushall", "FlushAll returned %v", err)
+				}
+				take()
+			default:
+				hist = append(hist, "close")
+				if err := gf.Close(ctx); err != nil {
+					rc.Failf("C11.spurious-error", "stock-flushall", "Close returned %v", err)
+				}
+				take()
+			}
+			if len(rc.Viol) > 0 {
+				return
+			}
+		}
+	})
+	sim.Run(nil)
+	rc.Desc = map[string]interface{}{"history": hist, "expiration": E.String()}
+	rc.NonTrivial = len(comps) > 1
+	if !done {
+		if len(rc.Viol) == 0 && len(sim.Panics) == 0 {
+			rc.Failf("C11.stuck", stuckClass(sim), "history did not finish: %s", strings.Join(sim.StuckInfo, "; "))
+		}
+		return
+	}
+	if len(rc.Viol) > 0 {
+		return
+	}
+	fail := func(rule, class, format string, a ...interface{}) {
+		rc.Failf("C11."+rule, class, "%s\nhistory: %s", fmt.Sprintf(format, a...), strings.Join(hist, "; "))
+	}
+	for _, id := range ids {
+		var want []*acc
+		for _, a := range accepted {
+			if a.id == id {
+				want = append(want, a)
+			}
+		}
+		wi := 0 // next accepted event of this id that has not been seen in a composite
+		for _, c := range comps {
+			if c.p.ID != id {
+				continue
+			}
+			// the events of this composite: a contiguous block of want starting at wi; its
+			// details are the events with Detail among them, in order
+			headers := map[string]interface{}{}
+			first := true
+			for _, d := range c.p.Details {
+				s, _ := d.Payload["seq"].(int)
+				// skip events without detail that precede this detail
+				for wi < len(want) && !want[wi].detail && want[wi].seq < s {
+					if first {
+						if string(c.typ) != want[wi].typ {
+							fail("stock-composite", "event-type", "composite of %q has type %q, its first event had %q", id, c.typ, want[wi].typ)
+						}
+						first = false
+					}
+					if want[wi].header {
+						headers[fmt.Sprintf("h%d", want[wi].seq)] = want[wi].seq
+						headers["last"] = want[wi].seq
+					}
+					wi++
+				}
+				if wi >= len(want) || want[wi].seq != s {
+					exp := "nothing"
+					if wi < len(want) {
+						exp = fmt.Sprintf("#%d", want[wi].seq)
+					}
+					fail("compose-args", "stock", "composite of %q (via %s) holds detail #%d where %s was due: an event is lost, duplicated or out of order; composites so far: %v", id, c.via, s, exp, comps)
+					return
+				}
+				a := want[wi]
+				if first {
+					if string(c.typ) != a.typ {
+						fail("stock-composite", "event-type", "composite of %q has type %q, its first event had %q", id, c.typ, a.typ)
+					}
+					first = false
+				}
+				if d.Type != a.typ || d.CreatedAt != a.created.String() {
+					fail("stock-composite", "detail-fields", "detail #%d of %q says type %q created %q, the event was type %q created %q", s, id, d.Type, d.CreatedAt, a.typ, a.created.String())
+				}
+				if a.header {
+					headers[fmt.Sprintf("h%d", a.seq)] = a.seq
+					headers["last"] = a.seq
+				}
+				wi++
+			}
+			// header entries of the events known to be in this composite must be there
+			for k, v := range headers {
+				if got, ok := c.p.Header[k]; !ok || got != v {
+					fail("stock-composite", "header", "composite of %q lacks header %s=%v of one of its events (header: %v)", id, k, v, c.p.Header)
+				}
+			}
+		}
+		for ; wi < len(want); wi++ {
+			if want[wi].detail {
+				fail("group-not-emitted", "stock", "event #%d of %q was accepted but its detail is in no composite, although the history ended with a flush of %q", want[wi].seq, id, id)
+				return
+			}
 		}
 	}
 }
